@@ -307,6 +307,10 @@ fn check_ref(c: &Case, ctx: &Ctx) -> Outcome {
             }
         }
         cli::write_fasta(&dir.join("ref.fa"), &["refname".to_string()], &[rtext], if c.ref_wrap { Some(60) } else { None });
+        // a stray blank or tab behind one of the sequence lines in every sixth reference
+        if (c.tail as usize + c.k / 2) % 6 == 1 {
+            cli::add_trailing_blank(&dir.join("ref.fa"), c.tail as usize / 6 + c.lead as usize);
+        }
         // Windows line endings in every fourth reference
         if (c.lead as usize + c.n_samples) % 4 == 0 {
             cli::to_crlf(&dir.join("ref.fa"));
